@@ -409,7 +409,7 @@ def body(chk):
         fail = first_failure(tree, rec, "r")
         hist["ok" if root is not None and "L" in root else "raised"] += 1
         # correspondence with the model: the root value (or the exception of the first failing node, when that node is modelled)
-        if count_di(tree) > (0 if chk.tier == "quick" else 1):
+        if count_di(tree) > 3:
             hist["oracle_only"] += 1
             continue
         if fail is not None and node_at(tree, fail)["k"] == "leaf":
